@@ -18,7 +18,7 @@ PROPERTY = {
                'merge histories': 'function node <- mapping | list | different-name string | same-target function node | different-target function node, delete flag {absent,T,F}; 2 stages (quick) / 3 (thorough)'},
     'outside': ['an integer position that lands on a keyword-only parameter (statement open)', 'a string with the SAME target name merged onto a function node (not in the table)'],
     'per_split_timeout': {'quick': 600, 'thorough': 1800},
-    'wall_budget': {'quick': 900, 'thorough': 3400},
+    'wall_budget': {'quick': 1500, 'thorough': 7000},
 }
 
 TARGETS = ['pos2', 'pos3', 'dflt', 'kwonly', 'varpos', 'varkw', 'mixed']
